@@ -50,6 +50,8 @@ void reset() {
   g_k.alloc = AllocStats();
   g_k.syscalls = 0;
   g_k.exit_called = 0;
+  g_k.pending_send_errno = 0;
+  g_k.icmp_recv_only = false;
   g_k.exit_code = 0;
   g_k.sysrng_state = 0x1234567;
   g_k.sysrng_pos = 0;
@@ -563,8 +565,10 @@ static ssize_t dgram_send(Fd *f, Addr dst, Addr src_hint, const void *buf, size_
   d.data.assign((const uint8_t *)buf, (const uint8_t *)buf + len);
   d.id = ++K().dgram_seq;
   int node = f->node;
+  K().pending_send_errno = 0;
   if (K().hooks.on_datagram) K().hooks.on_datagram(d, node);
   else deliver_datagram(d);
+  if (K().pending_send_errno) { errno = K().pending_send_errno; K().pending_send_errno = 0; return -1; }
   return (ssize_t)len;
 }
 
